@@ -183,6 +183,12 @@ def eval_case(case):
             n += 1
             if a is None or b is None or a != b:
                 fail("covariance-accessor", f"Covariance::{s_}() = {a!r} but covariance.data({i},{i}) = {b!r}")
+            rp = res["results"].get(p, {})
+            for const_key, plain_key in ((("cpPd", s_), ("pPd", s_)), (("cpx", s_), ("px", s_)), (("cmodel", s_), ("model", s_))):
+                n += 1
+                if rp.get(const_key) != rp.get(plain_key):
+                    fail("const-accessor", f"{const_key[0][1:]} '{s_}' read through a const reference = {rp.get(const_key)!r}, through a "
+                         f"non-const object = {rp.get(plain_key)!r}")
         for k, (hx, H) in sens.items():
             rn = ref.readings(k)
             Q = ref.Q(k)
